@@ -381,6 +381,12 @@ class Explorer:
             if isinstance(k, I):
                 if op == 'BitAnd' and k.n == 0:
                     return I(0)
+                if op == 'BitOr' and k.n == 1 and getattr(self, '_bool_or', True):
+                    return I(1)
+                if op == 'BitOr' and k.n == 0:
+                    return o
+                if op == 'BitAnd' and k.n == 1:
+                    return o
         return TOP
 
     # ------------------------------------------------------------------
